@@ -147,6 +147,16 @@ def arch_yaml(w, keep=None) -> str:
             if av:
                 ent.append("values_per_action: {%s}" % ", ".join("%s: %s" % (t, _num(_fr(v))) for t, v in av.items()))
             out.append("    - {%s}" % ", ".join(ent))
+    for f in w.get("fanout", []):
+        out += ["  - !Container", "    name: %s" % f["comp"], "    spatial:", "    - name: %s" % f["dim"],
+                "      fanout: %d" % f["n"]]
+        lbs = [c for c in w.get("lbs", []) if c["comp"] == f["comp"] and c["dim"] == f["dim"]]
+        if lbs:
+            out.append("      loop_bounds:")
+            for c in lbs:
+                out += ["      - expression: %s" % " | ".join(c["vars"]),
+                        "        operator: %s" % (("product" if c["product"] else "") + c["op"]),
+                        "        value: %d" % c["value"]]
     out += ["  - !Compute", "    name: MAC",
             "    skip_initial_output_write: %s" % ("True" if w["cskip"] else "False"),
             "    leak_power: %s" % E(w["mac"]["leak"]), "    area: 0", "    actions:",
